@@ -156,7 +156,11 @@ def main():
     build = corr.build_all()
     # 2. proof obligations of this property
     tfail = getattr(build, 'translator_failures', {}) or {}
-    skip_props = {corr.GEN_PROPS[st][1] for st in tfail if st in corr.GEN_PROPS and prop in corr.GEN_PROPS[st][0]}
+    skip_props = set()
+    for st in tfail:
+        if st in corr.GEN_PROPS and prop in corr.GEN_PROPS[st][0]:
+            fs = corr.GEN_PROPS[st][1]
+            skip_props |= set([fs] if isinstance(fs, str) else fs)
     proofs = check_props(prop, corr, skip=skip_props)
     # 3. correspondence
     corr_results = []
